@@ -17,7 +17,9 @@ META = {
         "11.c solar term: from_index(y,i).next(n) = from_index(y,i+n) = term 24y+i+n, incl. year carry both ways",
         "11.d every LoopTyme-backed cycle type: from_index(i).next(n) has index (i+n) mod N, size N from the cycle's definition",
         "11.e lunar month: next(n) moves by exactly n on the month line of ANY leap table (hence identity, additivity, inverse)",
-        "11.f lunar year, sexagenary year: year+n, refusal outside -1..9999",
+        "11.f lunar year, sexagenary year: year+n, refusal outside -1..9999; civil year: year+n, refusal outside 1..9999",
+        "11.i lunar hour: next(n) is 2n hours later: the lunar day steps by floor((hour+2n)/24) (LunarDay::next, 02.d), the hour is the remainder in 0..23, minute and second are kept (engine B, |n| <= 10^8)",
+        "11.j sexagenary day view: next(n) is the view of the civil day n days later; sexagenary instant view: next(n) the view of the instant n seconds later (engine B)",
         "11.h civil day and instant: by C01 (01.c/d/g) and C12 (12.a)",
     ],
     "outside": ["name<->index inverse and refusal of unknown names (LoopTyme::new by-name search is not symbolically executable, DESIGN §2 probe 21)",
@@ -98,6 +100,10 @@ def engine_b(tier, seed, scr):
         return out
     out += kernels.k_index_of(eng, table_sizes())
     out += [kernels.k_stepper(eng, k) for k in ("month", "season", "half")]
+    from mir2smt import lunar
+    out.append(lunar.k_lunar_hour_next(eng))
+    from mir2smt import pillars
+    out += [pillars.k_view_next(eng, "day"), pillars.k_view_next(eng, "hour")]
     return out
 
 def fallback_candidates(j):
